@@ -62,7 +62,13 @@ def collect(tier, seed, res, oracles):
         lim = 40000 if tier == 'quick' else 400000
         for case, out, d in pc.dfs(nw, ni, extra, md, retry=retry, limit=lim):
             handle(case, out, d, 'dfs')
+            if len(res.violations) >= 25:
+                break          # enough failing schedules; each spinning run costs a watchdog second
+        if len(res.violations) >= 25:
+            break
     for _ in range(2000 if tier == 'quick' else 20000):
+        if len(res.violations) >= 25:
+            break
         case, out, d = pc.random_case(rnd)
         handle(case, out, d, 'random')
     return terms, keep
